@@ -7,3 +7,9 @@ import PanderaModel.Props.C09
 #print axioms Pandera.C09.check_implies_same_kind_sign_width_partial
 #print axioms Pandera.C09.K_C09_witnesses
 #print axioms Pandera.C09.numeric_check_iff
+#print axioms Pandera.C09.keys_closed
+#print axioms Pandera.C09.every_key_resolves_to_a_fixed_point
+#print axioms Pandera.C09.equivalent_keys_forall
+#print axioms Pandera.C09.pandas_check_pairs_forall_partial
+#print axioms Pandera.C09.check_pairs_forall
+#print axioms Pandera.C09.print_and_reflexive_forall
